@@ -1312,6 +1312,11 @@ pub fn gen_sched(rng: &mut Rng, p: &Profile, seed: u64, interval: u64) -> SchedC
         max_steps: 40_000,
         stall,
         wall_steps,
+        report_stall: if rng.pct(p.stall_pct / 2) {
+            Some((rng.below(5) as u32, 5_000 + rng.below(4) * interval.max(10_000)))
+        } else {
+            None
+        },
     }
 }
 
